@@ -262,3 +262,33 @@ Print Assumptions C12_workers_exit_after_close.
 Print Assumptions C12_chans_terminates_variant.
 Print Assumptions C12_replicate_variant.
 Print Assumptions C12_workers_exit_variant.
+
+(* ---- the correspondence check's history matchers are certified (Conc/MergeMatcher.v): sound, and complete
+        whenever their closures converged, although their state test ignores ghost history and compares the
+        reflect-path case list up to order (a bisimulation quotient) ---- *)
+From Juniper Require Conc.GoLTS Conc.Merge Conc.MergeMatcher.
+
+Theorem C12_chans_matcher_sound : forall rep incaps outcaps evs,
+    Merge.CM.accepts_history rep incaps outcaps evs = true ->
+    exists ls s, GoLTS.run Merge.CM.qstep (Merge.CM.init rep incaps outcaps) ls = Some s /\ MergeMatcher.CMM.cm_trace ls = evs.
+Proof. exact MergeMatcher.CMM.cm_accepts_sound. Qed.
+
+Theorem C12_chans_matcher_rejections_genuine : forall rep incaps outcaps evs,
+    MergeMatcher.CMM.cm_converged rep incaps outcaps evs = true -> Merge.CM.accepts_history rep incaps outcaps evs = false ->
+    forall ls s, GoLTS.run Merge.CM.qstep (Merge.CM.init rep incaps outcaps) ls = Some s -> MergeMatcher.CMM.cm_trace ls <> evs.
+Proof. exact MergeMatcher.CMM.cm_reject_genuine. Qed.
+
+Theorem C12_stream_matcher_sound : forall scripts prog nctx evs,
+    Merge.SM.accepts_history scripts prog nctx evs = true ->
+    exists ls s, GoLTS.run Merge.SM.qstep (Merge.SM.init scripts prog nctx) ls = Some s /\ MergeMatcher.SMM.sm_trace ls = evs.
+Proof. exact MergeMatcher.SMM.sm_accepts_sound. Qed.
+
+Theorem C12_stream_matcher_rejections_genuine : forall scripts prog nctx evs,
+    MergeMatcher.SMM.sm_converged scripts prog nctx evs = true -> Merge.SM.accepts_history scripts prog nctx evs = false ->
+    forall ls s, GoLTS.run Merge.SM.qstep (Merge.SM.init scripts prog nctx) ls = Some s -> MergeMatcher.SMM.sm_trace ls <> evs.
+Proof. exact MergeMatcher.SMM.sm_reject_genuine. Qed.
+
+Print Assumptions C12_chans_matcher_sound.
+Print Assumptions C12_chans_matcher_rejections_genuine.
+Print Assumptions C12_stream_matcher_sound.
+Print Assumptions C12_stream_matcher_rejections_genuine.
